@@ -612,6 +612,11 @@ func renamedIdents(hint, header string) map[string]string {
 	for start := 0; start+len(ht) <= len(tt); start++ {
 		m := map[string]string{}
 		ok := true
+		// the window must not cut through a selector expression (x.f): a renamed local is
+		// not a field
+		if (start > 0 && tt[start-1] == ".") || (start+len(ht) < len(tt) && tt[start+len(ht)] == ".") {
+			continue
+		}
 		for i, h := range ht {
 			t := tt[start+i]
 			if h == t {
@@ -627,6 +632,10 @@ func renamedIdents(hint, header string) map[string]string {
 			}
 			if prev, seen := m[h]; seen && prev != t {
 				ok = false
+				break
+			}
+			if start+i+1 < len(tt) && tt[start+i+1] == "." {
+				ok = false // the candidate new name is the base of a selector, not a plain local
 				break
 			}
 			m[h] = t
